@@ -80,6 +80,48 @@ pub struct RtcAnswer {
     pub sdp: String,
 }
 
+/// Maximum nesting depth of arrays and objects in messages that will be
+/// passed on to the JSON deserializer. Valid messages are at most four levels
+/// deep.
+const MAX_JSON_NESTING_DEPTH: usize = 32;
+
+/// Check if JSON text nests arrays/objects deeper than what is reasonable
+///
+/// Deserialization is recursive, so deeply nested input from the network
+/// could otherwise overflow the stack of the calling thread.
+pub(crate) fn json_nesting_too_deep(bytes: &[u8]) -> bool {
+    let mut depth = 0usize;
+    let mut in_string = false;
+    let mut escaped = false;
+
+    for byte in bytes {
+        if in_string {
+            if escaped {
+                escaped = false;
+            } else if *byte == b'\\' {
+                escaped = true;
+            } else if *byte == b'"' {
+                in_string = false;
+            }
+        } else {
+            match byte {
+                b'"' => in_string = true,
+                b'[' | b'{' => {
+                    depth += 1;
+
+                    if depth > MAX_JSON_NESTING_DEPTH {
+                        return true;
+                    }
+                }
+                b']' | b'}' => depth = depth.saturating_sub(1),
+                _ => (),
+            }
+        }
+    }
+
+    false
+}
+
 fn serialize_20_bytes<S>(data: &[u8; 20], serializer: S) -> Result<S::Ok, S::Error>
 where
     S: Serializer,
